@@ -126,7 +126,7 @@ def extra(ctx, avh, avm, tier, seed):
     else:
         ctx.oblige("correspondence:file-heavy-histories(generator)", False, out[-600:])
     # ---- 2. the oracle batch (with load / duplicate)
-    rc, out, _ = lib.run([avh, "files", "oracle", DUMP, str(seed), tier], cwd=TW, timeout=3000, env={"AVH_FILES_ENABLE": "load,dup,conflict,merge3"})
+    rc, out, _ = lib.run([avh, "files", "oracle", DUMP, str(seed), tier], cwd=TW, timeout=3000, env={"AVH_FILES_ENABLE": "load,dup,conflict,merge3,rename"})
     stats, events = parse_oracle(out)
     ctx.coverage["oracle_files"] = {k: v for k, v in sorted(stats.items())}
     ctx.coverage["evaluations"] = ctx.coverage.get("evaluations", 0) + stats.get("ops", 0)
